@@ -29,7 +29,8 @@ import (
 //	                           D<c>:<ok|keep|err> done, L<c>:<0|1> release refused/accepted, M<c> idle timer, C<g> closeIdle, X<c> exit),
 //	                           replayed deterministically through Model/TransportConnC17.lean by the oracle
 //
-// Families (DialTimeout 300 ms, IdleTimeout 40 ms so that every deadline of the scenario elapses before the census):
+// Families (DialTimeout 300 ms, IdleTimeout 40 ms so that every deadline of the scenario elapses before the census;
+// 7 and 8: IdleTimeout 30 s, so that only CloseIdleConnections can have closed the connections counted by the census):
 //
 //	0 silent broker (ApiVersions never answered), cancel      1 unreachable (dial blocks until its context ends), cancel
 //	2, 3 the same with a context deadline instead of cancel
@@ -68,10 +69,14 @@ func transportScenario(kind int, r *rand.Rand) (lines [][2]string) {
 		<-release
 		return FetchResp{Hwm: 0, Cut: -1}
 	}}
+	idle := 40 * time.Millisecond
+	if kind == 7 || kind == 8 {
+		idle = 30 * time.Second // the idle timer cannot do CloseIdleConnections' work
+	}
 	kafka.VerifStart()
 	tr := &kafka.Transport{
 		DialTimeout: 300 * time.Millisecond,
-		IdleTimeout: 40 * time.Millisecond,
+		IdleTimeout: idle,
 		MetadataTTL: 10 * time.Second,
 		Dial: func(ctx context.Context, network, addr string) (net.Conn, error) {
 			if kind == 1 || kind == 3 {
